@@ -47,6 +47,7 @@ def new_model(repo):
     M = cm.Model(repo, Denotations(repo))
     M.interp.method_oracles[('Circuit', 'top_sort')] = oracle_top_sort
     M.interp.max_steps = 2_000_000
+    M.interp.allow_while = True     # e.g. `while connector in outputs: outputs.remove(connector)` is a worklist over the model state
     return M
 
 
@@ -86,6 +87,8 @@ OTHERS = [
     ([('x', 'INPUT', ()), ('y', 'INPUT', ()), ('z', 'XOR', ('x', 'y')), ('w', 'NOT', ('z',))], ('w', 'x')),
     ([('x', 'INPUT', ()), ('y', 'INPUT', ()), ('u', 'LT', ('y', 'x')), ('v', 'NAND', ('u', 'x', 'y'))], ('v', 'u', 'v')),
     ([('x', 'INPUT', ())], ('x',)),
+    # gates listing an operand twice (the users index must list them once per occurrence)
+    ([('x', 'INPUT', ()), ('y', 'INPUT', ()), ('z', 'AND', ('x', 'x')), ('w', 'OR', ('z', 'y', 'z'))], ('w', 'z')),
 ]
 
 
@@ -237,7 +240,7 @@ def fold_connect(ck: Checker, R: str, R_block: str | None = None):
                             bprobs.append(f'{bad}: {desc}')
             if len(probs) > 4 or len(bprobs) > 4:
                 break
-    ck.check(not probs, R, mod, fn, f'connect_circuit folded over {n_cases} compositions (2 base x 3 attached circuits, connector lists of length 0..2 incl. internal and repeated base gates, both directions, naming/prefix options): '
+    ck.check(not probs, R, mod, fn, f'connect_circuit folded over {n_cases} compositions (2 base x 4 attached circuits, connector lists of length 0..2 incl. internal and repeated base gates, both directions, naming/prefix options): '
              'attached circuit untouched, well-formed result, inputs and outputs of the documented composition in order, every kept output computes the composed function', '; '.join(probs[:2]), construct='connect_circuit over the composition family')
     if R_block:
         ck.check(not bprobs, R_block, mod, blk_fn, f'the named block of each composition, extracted with Block.into_circuit, computes the attached circuit\'s function ({n_blocks} blocks)', '; '.join(bprobs[:2]),
